@@ -801,8 +801,10 @@ static inline long cmb_random_dice(const long a, const long b)
 {
     cmb_assert (a < b);
 
+    /* Add the offset in integer arithmetic: (double)a + x would be rounded to
+     * the spacing of doubles near a and could reach b + 1 for large |a| */
     const double x = (double)(b - a + 1) * cmb_random();
-    return (long)(floor((double)a + x));
+    return a + (long)floor(x);
 }
 
 /**
